@@ -63,8 +63,9 @@ def write_if_changed(path, text):
     return True
 
 
-def make_batch(seed, n_traits, name, exclude=()):
-    """Deterministic in (seed, n_traits). `exclude`: module names dropped (compile-rejected)."""
+def make_batch(seed, n_traits, name, exclude=(), lite=()):
+    """Deterministic in (seed, n_traits). `exclude`: module names dropped (compile-rejected);
+    `lite`: trait modules emitted without the by-name vtable getters."""
     rng = random.Random(seed * 1000003 + n_traits)
     traits = []
     for k in range(n_traits):
@@ -113,7 +114,7 @@ def make_batch(seed, n_traits, name, exclude=()):
     for (m, t) in traits:
         if m in exclude:
             continue
-        write_if_changed(os.path.join(d, "src", f"{m}.rs"), emit.module_src(t))
+        write_if_changed(os.path.join(d, "src", f"{m}.rs"), emit.module_src(t, lite=m in lite))
         mods.append(f"mod {m};")
         runs.append(RUN.format(mod=m, tname=t.name))
     for (gm, g) in groups:
